@@ -66,7 +66,15 @@ ImplOp(op) == LET S == RunAll(Begin(fs, mem, op)) IN
 \* a.rcs = further crashes during recovery (the recovering process was killed
 \* in front of a crash point of New), then an uninterrupted recovery
 \* a.torn >= 0: torn write (the log tail was cut inside the batch, a.torn complete records kept)
-ImplCrash(a) == LET R == IF a.torn >= 0 THEN TornFS(fs, mem, a.op, a.torn)
+\* a.p = "syscall": the process was killed right after one of its file-system calls, at
+\* a boundary the code does not name; the recovered state must be the recovery of the
+\* state after SOME prefix of the operation's effects
+ImplCrashAnywhere(a) ==
+  \E k \in 0..Len(Plan(fs, mem, a.op)) :
+     LET V == RecoverFS(RunPrefix(Begin(fs, mem, a.op), k).fs) IN fs' = V.fs /\ mem' = V.mem
+
+ImplCrash(a) == IF a.p = "syscall" THEN ImplCrashAnywhere(a) /\ obs'.err = "" ELSE
+                LET R == IF a.torn >= 0 THEN TornFS(fs, mem, a.op, a.torn)
                          ELSE LET Q == RunTo(Begin(fs, mem, a.op), a.p, a.n) IN [hit |-> Q.hit, fs |-> Q.S.fs]
                     C == CrashedRecoveries(R.fs, a.rcs)
                     V == RecoverFS(C.fs) IN
